@@ -160,6 +160,12 @@ def cases(tier, seed):
                          "detach_test_caches": rnd.random() < 0.5},
             "seed": rnd.randrange(10**6),
         }
+    # exact GPs with two input tensors (points + task indices, the Hadamard multitask construction)
+    for lik_, fpv, chol in itertools.product(["gauss", "fixed"], [False, True], [800, 0]):
+        if fpv and chol == 0:
+            continue
+        yield {"two_inputs": True, "n": rnd.choice([6, 9]), "ns": rnd.choice([1, 4]), "tasks": rnd.choice([2, 3]), "lik": lik_,
+               "settings": {"lazily_evaluate_kernels": rnd.random() < 0.7, "max_cholesky_size": chol, "fast_pred_var": fpv, "detach_test_caches": rnd.random() < 0.5}, "seed": rnd.randrange(10**6)}
     # an exact prediction after a LOW-RANK fast-variance prediction on the same model (its root caches stay behind)
     for j in range(6 if tier == "quick" else 60):
         yield {
@@ -364,10 +370,79 @@ def build(case):
     return model, lik, X, y, xs, test_noise
 
 
+def _two_inputs(case, ctx):
+    """an exact GP whose forward takes TWO input tensors (points and task indices: the Hadamard multitask construction):
+    the posterior at (x*, i*) is the closed-form conditional of the kernel k(x, x') B[i, i']"""
+    import contextlib
+
+    import torch
+
+    import gpytorch
+    from gpytorch import settings as S
+    from vf import util
+
+    _ST["case"] = None  # (the single-input post-condition of __call__ does not apply; this cell carries its own oracle)
+    g = util.gen(case["seed"])
+    n, ns, T, d = case["n"], case["ns"], case["tasks"], 2
+    X, xs = util.randn(g, n, d), util.randn(g, ns, d)
+    I, Is = torch.randint(0, T, (n, 1), generator=g), torch.randint(0, T, (ns, 1), generator=g)
+    y = util.randn(g, n)
+    K = gpytorch.kernels
+
+    class Had(gpytorch.models.ExactGP):
+        def __init__(s, lik):
+            super().__init__((X, I), y, lik)
+            s.mean_module = gpytorch.means.ConstantMean()
+            s.covar_module = K.ScaleKernel(K.MaternKernel(nu=2.5))
+            s.task_covar_module = K.IndexKernel(num_tasks=T, rank=1)
+
+        def forward(s, x, i):
+            return gpytorch.distributions.MultivariateNormal(s.mean_module(x), s.covar_module(x).mul(s.task_covar_module(i)))
+
+    if case["lik"] == "gauss":
+        lik = gpytorch.likelihoods.GaussianLikelihood()
+        noise = None
+    else:
+        noise = util.rand(g, n) * 0.4 + 0.05
+        lik = gpytorch.likelihoods.FixedNoiseGaussianLikelihood(noise=noise)
+    model = Had(lik)
+    util.randomize(model, g, 0.5)
+    model.eval()
+    with torch.no_grad(), S.lazily_evaluate_kernels(False):
+        B = model.task_covar_module.covar_matrix.to_dense()
+        Xa, Ia = torch.cat([X, xs]), torch.cat([I, Is]).squeeze(-1)
+        J = model.covar_module(Xa).to_dense() * B[Ia][:, Ia]
+        mu = model.mean_module(Xa)
+        Sn = (lik.noise.detach() * torch.eye(n)) if noise is None else torch.diag(noise)
+        ref_m, ref_c, _, _ = util.dense_conditional(J[:n, :n], J[n:, :n], J[n:, n:], mu[:n], mu[n:], Sn, y)
+    sd = case["settings"]
+    iterative = sd.get("max_cholesky_size") == 0
+    with util.settings_ctx(sd, tight=True, n=n + ns), torch.no_grad():
+        try:
+            out = model(xs, Is)
+            mean, cov = out.mean, out.covariance_matrix
+            out2 = model(xs.clone(), Is.clone())  # served from the caches of the first call
+        except Exception as e:
+            ctx.fail("posterior_mean", f"two-input exact GP raised {type(e).__name__}: {str(e)[:150]}", "raise", exc=type(e).__name__, two_inputs=True)
+            ctx.cell({k: v for k, v in case.items() if k != "seed"})
+            return
+    tol = ("iter" if iterative else "direct") if not sd.get("fast_pred_var") else ("lanczos" if iterative else "loose")
+    cls = "two_inputs:" + ("cg" if iterative else "chol") + ("+love" if sd.get("fast_pred_var") else "")
+    ctx.close("posterior_mean", mean, ref_m, "iter" if iterative else "direct", cls=cls + ":mean")
+    ctx.close("posterior_covar", cov, ref_c, tol, cls=cls + ":covar")
+    ctx.close("posterior_mean", out2.mean, ref_m, "iter" if iterative else "direct", cls=cls + ":mean:second_call")
+    ctx.close("posterior_covar", out2.covariance_matrix, ref_c, tol, cls=cls + ":covar:second_call")
+    ctx.hit("likelihood_adds_noise", 0)
+    ctx.cell({k: v for k, v in case.items() if k != "seed"}, nontrivial=float((ref_m - mu[n:]).abs().max()) > 1e-3)
+
+
 def run_case(case, ctx):
     import contextlib
 
     import torch
+
+    if case.get("two_inputs"):
+        return _two_inputs(case, ctx)
 
     # environment of the call: the process-wide default dtype (objects are float64 whatever it is) and the autograd mode
     dflt = case.get("default_dtype")
